@@ -41,6 +41,9 @@ def vis_fn(rng, name, i):
     q = rng.choice(QUALS)
     deps = rng.choice([d for d in soup.DEPS if "Concrete" not in d[1] and "(u8" not in d[1] and "[u8" not in d[1]])
     attrs = rng.sample(soup.FN_ATTRS, rng.randint(0, 2))
+    if rng.random() < 0.12:
+        # a visible fn that is entraited on its own as well (a second, nested invocation): still a method of the module trait
+        attrs.insert(rng.randint(0, len(attrs)), rng.choice(["#[::entrait::entrait(pub Inner%d)]", "#[entrait(Inner%d)]", "#[::entrait::entrait_export(pub Inner%d, ?Send)]"]) % i)
     ps = rng.sample([p for p in soup.PARAMS if "impl " not in p or "const" not in q], rng.randint(0, 3))
     body = "{ " + " ".join(rng.sample(soup.STMTS, rng.randint(0, 3))) + " }"
     sig = "%s %s fn %s%s(%s) %s %s" % (v, q, name, deps[0], ", ".join([deps[1]] + ps), rng.choice(["", "-> u8", "-> ()"]) if "async" in q else rng.choice(soup.RETS), deps[2])
